@@ -64,6 +64,7 @@ def judge(case, drv):
             raise Violation('slot-attributes-depend-on-font', case, 'slot %d' % i)
         close(fl(s['o'][0]), fl(t['o'][0]), 'origin-x', i); close(fl(s['o'][1]), fl(t['o'][1]), 'origin-y', i)
         close(fl(s['a'][0]), fl(t['a'][0]), 'advance-x', i); close(fl(s['a'][1]), fl(t['a'][1]), 'advance-y', i)
+        close(fl(s['a0'][0]), fl(t['a0'][0]), 'advance-x-without-face-argument', i); close(fl(s['a0'][1]), fl(t['a0'][1]), 'advance-y-without-face-argument', i)
     close(fl(a['adv'][0]), fl(b['adv'][0]), 'segment-advance-x', -1); close(fl(a['adv'][1]), fl(b['adv'][1]), 'segment-advance-y', -1)
     nt = any(s['p'] >= 0 or s['at'][16] or s['at'][17] for s in a['slots']) or bool(case['dir'] & 1)
     return ref, nt
